@@ -488,12 +488,12 @@ CX_IMPORTS = ["Base.Dec", "Model.Exec", "Model.ExecShow", "Model.StepExec", "Mod
 FX_IMPORTS = ["Base.Dec", "Model.Exec", "Model.ExecShow", "Model.StepExec", "Model.FileExec", "Model.FileShow"]
 
 
-def cache_check(res, pid, cone, extra=None, n_file=(40, 400), n_cache=(30, 300)):
+def cache_check(res, pid, cone, extra=None, n_file=(40, 400), n_cache=(30, 300), gen=()):
     nf, nc = (n_file[0], n_cache[0]) if res.tier == "quick" else (n_file[1], n_cache[1])
     with core.Lock():
         gate = core.grep_gate()
         status = core.regen()
-        pr = core.proof_stage(res, pid, cone, [], status)
+        pr = core.proof_stage(res, pid, cone, list(gen), status)
         if gate:
             pr["ok"] = False
             pr["broken"].append({"kind": "gate", "error": gate})
